@@ -47,6 +47,9 @@ CLAIMS["C15"] = ("inventory of message-literal fields that carry payload bytes +
 CLAIMS["C14"] = ("must-reach (post-dominance restricted to success exits) of event saves in the admission closure + ownership of notify (after-commit closures only), Finished and job deletion + must-pass-through on completion + persistency option table of the subscriber registrations + retry-budget constant checks",
   "Static decision that every admitted transaction/payload event is saved inside the admission transaction, that delivery starts only after commit, that a job disappears only on recorded completion while unfinished ones are persisted with an incremented retry counter, that the persistent subscribers are registered with persistency and resumed at start while their budget (maxRetries) lasts. Exhaustive over the current source.",
   "Trusts go/ssa and go-stoabs commit/after-commit semantics; retry timing and crash instants are not decided.")
+CLAIMS["C08"] = ("must-reach of the digest update after graph.add in the admission closure + must-pass-through in updateState/(*dag).add + shared write-transaction handle + OnRollback/loadState option and argument checks + ownership of tree mutators and bucket writers + lock-dominance on treeStore + same-transaction recompute/replace ordering of the repair",
+  "Static decision that graph, digests, head and counters are written in one transaction, that a rollback or restart overwrites the in-memory state from disk, that the trees have a single writer discipline, and that the repair recomputes and replaces a page inside one write transaction only on a detected difference. Exhaustive over the current source.",
+  "Trusts go/ssa and go-stoabs; numerical equality of digests with the stored set is not decided.")
 PENDING = {}
 
 def main():
